@@ -28,6 +28,25 @@ REDUCE = {"frost_ed25519": ["from_bytes_mod_order_wide"], "frost_ristretto255": 
           "frost_ed448": ["from_bytes_mod_order_wide"]}
 
 
+def preimage_entries(P, f, v):
+    """binding_factor_preimages returns one (identifier, preimage) per key of the package's commitment map:
+    (key term over ITEM, ordered byte parts of the preimage over ITEM) — for `.keys().map(..).collect()` and for a push loop"""
+    oks = ok_values(f, v)
+    if len(oks) != 1:
+        return None
+    comps = map_components(P, f, v, oks[0])
+    if len(comps) != 1 or comps[0][0] != "each":
+        return None
+    src, key, val = comps[0][1], comps[0][2], comps[0][3]
+    if not (is_call(src, name="keys") and fld(arg(1), "signing_commitments")(src[2][0])):
+        return None
+    if key is None and val[0] == "agg" and val[1] == "tuple" and len(val[4]) == 2:
+        key, val = val[4][0][1], val[4][1][1]
+    if key is None:
+        return None
+    return key, flatten(val)
+
+
 def bytes_const(t):
     if t[0] == "const" and isinstance(t[2], str):
         return t[2]
@@ -186,30 +205,19 @@ def run(ctx):
     f = ctx.anchor(CORE + "SigningPackage::<C>::binding_factor_preimages")
     if f:
         v = FnView.get(P, f)
-        oks = ok_values(f, v)
-        good = len(oks) == 1
+        det = ""
+        pv = preimage_entries(P, f, v)
+        good = pv is not None
         if good:
-            t = oks[0]
-            mp = [s for s in subterms(t) if is_call(s, name="map")]
-            good = len(mp) == 1 and is_call(mp[0][2][0], name="keys") and fld(arg(1), "signing_commitments")(mp[0][2][0][2][0]) and mp[0][2][1][0] == "closure"
-            if good:
-                prefix = flatten(mp[0][2][1][2][0]) if mp[0][2][1][2] else []
-                vk = lambda x: (x[0] == "ok" and is_call(x[1], name="serialize") and strip_newtype_fields(x[1][2][0]) == ("arg", 2)) or \
-                    (x[0] == "ok" and is_call(x[1], name="serialize") and x[1][2][0] == ("field", ("arg", 2), "frost_core::verifying_key::VerifyingKey", "element"))
-                h4 = lambda x: is_call(x, name="H4") and fld(arg(1), "message")(x[2][0])
-                h5 = lambda x: is_call(x, name="H5") and mentions(x[2][0], lambda s: is_call(s, name="encode_group_commitments") and fld(arg(1), "signing_commitments")(s[2][0]))
-                good = len(prefix) == 4 and vk(prefix[0]) and h4(prefix[1]) and h5(prefix[2]) and prefix[3] == ("arg", 3)
-                det = [fmt(p)[:70] for p in prefix]
-                cf = P.fns.get(mp[0][2][1][1])
-                ct = TermCx(P, cf).local(0) if cf else None
-                if good and ct is not None and ct[0] == "agg":
-                    per = flatten(ct[4][1][1])
-                    good = (ct[4][0][1] == ("arg", 2) and len(per) == 2 and per[0] == ("field", ("arg", 1), None, "0")
-                            and is_call(per[1], name="serialize") and strip_newtype_fields(per[1][2][0]) == ("arg", 2))
-                else:
-                    good = False
-            else:
-                det = "no map over keys"
+            key, parts = pv
+            vk = lambda x: x[0] == "ok" and is_call(x[1], name="serialize") and (strip_newtype_fields(x[1][2][0]) == ("arg", 2) or
+                                                                                  x[1][2][0] == ("field", ("arg", 2), "frost_core::verifying_key::VerifyingKey", "element"))
+            h4 = lambda x: is_call(x, name="H4") and fld(arg(1), "message")(x[2][0])
+            h5 = lambda x: is_call(x, name="H5") and mentions(x[2][0], lambda s: is_call(s, name="encode_group_commitments") and fld(arg(1), "signing_commitments")(s[2][0]))
+            idp = lambda x: is_call(x, name="serialize") and strip_newtype_fields(x[2][0]) == ITEM
+            det = [fmt(p)[:70] for p in parts]
+            good = (strip_newtype_fields(key) == ITEM and len(parts) == 5 and vk(parts[0]) and h4(parts[1]) and h5(parts[2])
+                    and parts[3] == ("arg", 3) and idp(parts[4]))
         ctx.check(good, "SEQ", f.key, "ser(vk)||H4(msg)||H5(encode(list))||prefix||ser(id)",
                   "RFC 9591 §4.4: rho_input = group_public_key_enc || H4(msg) || H5(encode_group_commitment_list) [|| extra "
                   "prefix] || SerializeScalar(identifier), one per identifier of the list; found prefix %s" % (det,), f.loc)
